@@ -74,8 +74,13 @@ func NewValue(typ *meta.Type, v interface{}) (result val.Value, err error) {
 	case val.FmtEnumList:
 		return toEnumList(typ.Enum(), v)
 	case val.FmtUnion:
-		cvt, _, err := val.ConvOneOf(typ.UnionFormats(), v)
-		return cvt, err
+		// member types in order, so enumeration, identityref, bits and leafref members are candidates too
+		for _, t := range typ.Union() {
+			if cvt, err := NewValue(t, v); err == nil && cvt != nil {
+				return cvt, nil
+			}
+		}
+		return nil, fmt.Errorf("could not convert %v to any of the allowed types", v)
 	case val.FmtUnionList:
 		return toUnionList(typ, v)
 	case val.FmtLeafRef, val.FmtLeafRefList:
